@@ -220,6 +220,22 @@ impl std::str::FromStr for PathLike {
         Ok(PathLike(s.to_string()))
     }
 }
+/// A string-like external type with FromStr whose Display is NOT its wire form (C11: a type that
+/// only declares FromStr must not lend its Display to a generated type).
+#[derive(Clone, Debug, PartialEq, serde::Serialize, serde::Deserialize)]
+#[serde(transparent)]
+pub struct Skewed(pub String);
+impl std::str::FromStr for Skewed {
+    type Err = std::convert::Infallible;
+    fn from_str(s: &str) -> Result<Self, Self::Err> {
+        Ok(Skewed(s.to_string()))
+    }
+}
+impl std::fmt::Display for Skewed {
+    fn fmt(&self, f: &mut std::fmt::Formatter<'_>) -> std::fmt::Result {
+        write!(f, "<{}>", self.0)
+    }
+}
 /// ... and one with Display but not FromStr
 #[derive(Clone, Debug, PartialEq, serde::Serialize, serde::Deserialize)]
 #[serde(transparent)]
